@@ -9,4 +9,5 @@ DupShapes == { <<s[1], s[2]>> : s \in { y \in Shapes : ~NoDup(y[3]) } }
 ASSUME PrintT(<<"DUPLICATE-KEY-SHAPES", DupShapes>>)
 ASSUME ndJsonSerialize(IOEnv.OUT, SetToSeq({ [ty |-> s[1], variant |-> s[2], keys |-> s[3], dupfree |-> NoDup(s[3])] : s \in Shapes }))
 ASSUME ndJsonSerialize(IOEnv.OUT_STR, SetToSeq({ [table |-> s[1], value |-> s[2], text |-> s[3]] : s \in Strings }))
+ASSUME ndJsonSerialize(IOEnv.OUT_CONTENT, SetToSeq({ [ty |-> c[1][1], field |-> c[1][2], class |-> c[2]] : c \in ContentCases }))
 ====
